@@ -133,11 +133,15 @@ func GenUniverse(t *rapid.T, o UniverseOpts, c *Case) map[string]UBinding {
 	if rapid.IntRange(0, 2).Draw(t, "hasVee") != 0 {
 		mode := rapid.SampledFrom([]string{"name", "go-short", "register", "register"}).Draw(t, "bindVee")
 		veeName = "TV"
+		veeGo := "Vee"
+		if c.VeeIsMap = rapid.IntRange(0, 2).Draw(t, "veeIsMap") == 0; c.VeeIsMap {
+			veeGo = "Mee"
+		}
 		switch mode {
 		case "name":
-			veeName = "Vee"
+			veeName = veeGo
 		case "go-short":
-			dirs[veeName] = []hx.DirUse{{Name: "go", Args: []hx.KV{{Key: "type", V: hx.Str("Vee")}}}}
+			dirs[veeName] = []hx.DirUse{{Name: "go", Args: []hx.KV{{Key: "type", V: hx.Str(veeGo)}}}}
 		case "register":
 			reg[veeName] = true
 		}
@@ -215,7 +219,7 @@ func GenUniverse(t *rapid.T, o UniverseOpts, c *Case) map[string]UBinding {
 			if name == veeName && !veeSlots[sd.name] {
 				continue
 			}
-			if strings.Contains(sd.typ, "V") && (veeName == "" || name == veeName) {
+			if strings.Contains(sd.typ, "V") && (veeName == "" || name == veeName || c.VeeIsMap) {
 				continue
 			}
 			must := isImpl && (sd.name == "str" || sd.name == "greet" || sd.name == "echo")
